@@ -264,6 +264,17 @@ class Interp:
         if isinstance(f, ast.Name) and f.id in env and callable(env[f.id]) \
                 and not isinstance(env[f.id], Opaque):
             return env[f.id](*[self.ev(a, env) for a in n.args])
+        # the operator module's functional spellings of the comparisons
+        if isinstance(f, ast.Attribute) and isinstance(f.value, ast.Name) and \
+                f.value.id == 'operator' and not n.keywords:
+            ops = {'lt': ast.Lt, 'le': ast.LtE, 'eq': ast.Eq, 'ne': ast.NotEq,
+                   'gt': ast.Gt, 'ge': ast.GtE, 'is_': ast.Is, 'is_not': ast.IsNot}
+            if f.attr in ops and len(n.args) == 2:
+                a_, b_ = self.ev(n.args[0], env), self.ev(n.args[1], env)
+                return bool(self.compare(ops[f.attr](), a_, b_, n))
+            if f.attr in ('not_', 'truth') and len(n.args) == 1:
+                t_ = self.truth(self.ev(n.args[0], env), n.args[0])
+                return (not t_) if f.attr == 'not_' else bool(t_)
         helper = self._new_helper(f)
         if helper is not None:
             fn, bound = helper
